@@ -10,6 +10,42 @@ import framework as FW
 import gen_engine as G
 import oracles as O
 import solver_runs as S
+import json
+import crash_runs as CR
+import gen_full as GF
+import oracles_full as OF
+
+
+def full_stage(chk, pid, tier, seed):
+    """property predicates on the CLI output of the real solver for full-feature inputs
+    (groups, alternates, mixing, initial stops, multipliers, duration groups, ...)"""
+    rng = random.Random(seed * 3001 + int(pid[1:]))
+    n = 100 if tier == "quick" else 3000
+    blocks, meta = [], {}
+    for k, cc in enumerate(FW.load_corpus(pid)):
+        if cc.get("kind") == "full":
+            cid = "corpus%d" % k
+            meta[cid] = (cc["input"], cc["options"])
+            blocks.append((cid, GF.case_lines(cc["input"], cc["options"], {"iterations": 120, "duration_ms": 2500, "runs": 1, "starts": 1, "output": 2})))
+    for i in range(n):
+        inp, opts, feats = GF.gen_full(rng, "small" if i % 3 else "medium")
+        meta[str(i)] = (inp, opts)
+        blocks.append((str(i), GF.case_lines(inp, opts, {"iterations": 100, "duration_ms": 2500, "runs": 1 + (i % 5 == 0), "starts": 1 + (i % 4 == 0), "output": 2})))
+    res = CR.run_crash(blocks, "%s_full_%s" % (pid.lower(), tier), timeout=3000)
+    nout = nviol = 0
+    for cid, r in res.items():
+        inp, opts = meta[cid]
+        for js in r["output"]:
+            nout += 1
+            fails = OF.check_output(inp, opts, json.loads(js)).get(pid)
+            if fails:
+                nviol += 1
+                chk.violation({"kind": "input", "what": fails[0], "failures": fails[:6], "input": inp, "options": opts,
+                               "how_to_replay": "harness `crash` with output=2 and lib/oracles_full.check_output"})
+                break
+    chk.ob("property predicate on the CLI output of every delivered solution for %d full-feature inputs (%d outputs)" % (len(blocks), nout), nviol == 0)
+    chk.ev.cov["full_feature_inputs"] = len(blocks)
+    chk.ev.cov["full_feature_outputs"] = nout
 
 
 def solver_settings(rng, m):
@@ -118,6 +154,8 @@ def run(pid, tier, seed, oracle_names, title, feats=None, check_c07=False, extra
         "search_description": "the property's predicate recomputed from the input on every implementation snapshot (histories + solver output)",
     })
     chk.ev.assume("integer-valued inputs (float64 exact); stops units only in the modelled core so far (groups/alternates/no-mix/initial stops/duration groups pending)")
+    if pid in ("C01", "C02", "C03", "C04", "C05", "C08", "C20"):
+        full_stage(chk, pid, tier, seed)
     if extra:
         extra(chk, res)
     return chk.finish()
